@@ -29,7 +29,7 @@ WORKERS = {"quick": 8, "thorough": 16}
 BUDGET = {"quick": 60, "thorough": 1200}
 EXHAUSTIVE = {"quick": False, "thorough": True}
 N_FRAMES = 6
-FMTS = ["h5", "xtc", "xtc9", "trr", "dcd", "dcd0", "dcd4", "nc", "mdcrd", "mdcrd-nobox", "xyz", "xyz.gz", "lammpstrj", "dtr", "arc"]
+FMTS = ["h5", "xtc", "xtc9", "trr", "dcd", "dcd0", "dcd4", "nc", "mdcrd", "mdcrd-nobox", "xyz", "xyz-foreign", "xyz.gz", "lammpstrj", "dtr", "arc"]
 # dcd0 = DCD whose header frame count was never patched (0); dcd4 = CHARMM 4-dimensional DCD (see vlib/gen/files.py);
 # mdcrd-nobox = MDCRD without box lines (the default files carry a cell)
 # gro is not seekable (seek raises NotImplementedError) and is not in the property's list: not judged here.
@@ -132,11 +132,13 @@ def _file_for(fmt):
         if os.environ.get("VERIF_REPO"):
             path = os.path.join(os.environ["VERIF_REPO"], "tests/data/4waters.arc")
     else:
-        ext = {"xtc9": "xtc", "dcd0": "dcd", "dcd4": "dcd", "mdcrd-nobox": "mdcrd"}.get(fmt, fmt)
+        ext = {"xtc9": "xtc", "dcd0": "dcd", "dcd4": "dcd", "mdcrd-nobox": "mdcrd", "xyz-foreign": "xyz"}.get(fmt, fmt)
         na = 6 if fmt in ("xtc9",) else 12
         t = files.ident_traj(N_FRAMES, na, cell=None if fmt in ("dcd4", "mdcrd-nobox") else "ortho")
         path = os.path.join(_TMP, f"f_{fmt}.{ext}")
         t.save(path)
+        if fmt == "xyz-foreign":
+            files.xyz_make_foreign(path)
         if fmt == "dcd0":
             files.dcd_set_nset(path, 0)
         elif fmt == "dcd4":
